@@ -202,7 +202,12 @@ var c19Kinds = []mapKind{
 }
 
 // ---- reference: slice of pairs ----
-type refMap struct{ keys, vals []int }
+type refMap struct {
+	keys, vals []int
+	// bytes returned by the last MarshalJSON of the real map, and what they said then
+	prevJSON []byte
+	prevCopy string
+}
 
 func (r *refMap) idx(k int) int {
 	for i, kk := range r.keys {
@@ -406,6 +411,11 @@ func c19Observe(m omap, r *refMap, nkeys int) string {
 	if exp := m.expectJSON(r.keys, r.vals); string(b) != exp {
 		return fmt.Sprintf("MarshalJSON %s, reference %s", b, exp)
 	}
+	// the bytes handed out by the previous MarshalJSON (of this run) still say what they said
+	if r.prevJSON != nil && string(r.prevJSON) != r.prevCopy {
+		return fmt.Sprintf("the bytes an earlier MarshalJSON returned changed afterwards: were %s, now %s", r.prevCopy, r.prevJSON)
+	}
+	r.prevJSON, r.prevCopy = b, string(b)
 	return ""
 }
 
